@@ -25,8 +25,9 @@ CONSTANTS Writers,   \* set of writer thread ids
           Plans,     \* set of functions Writers -> Seq({"commit","rollback","empty"}): how each
                      \* transaction of each writer ends (the environment's script)
           RPlans,    \* set of functions Readers -> Nat: number of read transactions per reader
-          RModes,    \* set of functions Readers -> {"latest", "byid"}: a "byid" reader opens its later
-                     \* transactions with reader(id = the version id its first transaction saw)
+          RModes,    \* set of functions Readers -> {"latest", "byid", "byinit"}: a "byid" reader opens
+                     \* its later transactions with reader(id = the id its first transaction saw), a
+                     \* "byinit" reader opens every transaction with reader(id = InitVid)
           InitVid,   \* id of the only version retained initially
           Policers,  \* set of thread ids that change the retention policy (set_max_versions)
           PPlans     \* set of functions Policers -> Seq(Nat): the max_versions values each sets
@@ -46,6 +47,8 @@ Older(vs, rv) == Cardinality({i \in 1..Len(vs) : vs[i].id < LeastKept(vs, rv)})
 Excess(vs, n) == IF n = 0 THEN 0 ELSE IF Len(vs) > n THEN Len(vs) - n ELSE 0
 Drop(vs, rv, n) == IF Older(vs, rv) < Excess(vs, n) THEN Older(vs, rv) ELSE Excess(vs, n)
 Prune(vs, rv, n) == SubSeq(vs, Drop(vs, rv, n) + 1, Len(vs))
+\* the version id a reader asks for (0 = the newest)
+Target(m, f) == IF m = "byinit" THEN InitVid ELSE IF m = "byid" THEN f ELSE 0
 
 (* --algorithm WriterAdmission {
 variables
@@ -111,10 +114,10 @@ fair process (r \in Readers)
 rStart: while (rk < rplan[self]) {
           rk := rk + 1;
 rAcq:     await lock = 0; lock := self;                          \* :90
-rPick:    if (rmode[self] = "byid" /\ first # 0) {               \* :91-98 reader(id=first)
-            if (\E i \in 1..Len(versions) : versions[i].id = first) {
-              rver := versions[CHOOSE i \in 1..Len(versions) : versions[i].id = first];
-              readerVer[self] := first;
+rPick:    if (Target(rmode[self], first) # 0) {                  \* :91-98 reader(id=...)
+            if (\E i \in 1..Len(versions) : versions[i].id = Target(rmode[self], first)) {
+              rver := versions[CHOOSE i \in 1..Len(versions) : versions[i].id = Target(rmode[self], first)];
+              readerVer[self] := Target(rmode[self], first);
             } else {
               rver := [id |-> 0, content |-> <<>>];               \* KeyError("version not found")
             }
@@ -444,10 +447,10 @@ rAcq(self) == /\ pc[self] = "rAcq"
                               first, pk >>
 
 rPick(self) == /\ pc[self] = "rPick"
-               /\ IF rmode[self] = "byid" /\ first[self] # 0
-                     THEN /\ IF \E i \in 1..Len(versions) : versions[i].id = first[self]
-                                THEN /\ rver' = [rver EXCEPT ![self] = versions[CHOOSE i \in 1..Len(versions) : versions[i].id = first[self]]]
-                                     /\ readerVer' = [readerVer EXCEPT ![self] = first[self]]
+               /\ IF Target(rmode[self], first[self]) # 0
+                     THEN /\ IF \E i \in 1..Len(versions) : versions[i].id = Target(rmode[self], first[self])
+                                THEN /\ rver' = [rver EXCEPT ![self] = versions[CHOOSE i \in 1..Len(versions) : versions[i].id = Target(rmode[self], first[self])]]
+                                     /\ readerVer' = [readerVer EXCEPT ![self] = Target(rmode[self], first[self])]
                                 ELSE /\ rver' = [rver EXCEPT ![self] = [id |-> 0, content |-> <<>>]]
                                      /\ UNCHANGED readerVer
                      ELSE /\ rver' = [rver EXCEPT ![self] = Last(versions)]
